@@ -159,4 +159,16 @@ theorem C13_code_check_tuple_spec (S : List Sp) (ex : Bool) (t : List Sp) :
     Atsim.Gen.Logic.check_tuple S ex t = (if ex then t.all (fun s => !S.contains s) else t.all (fun s => S.contains s)) := by
   rw [C13_code_check_tuple, checkTuple_spec]
 
+/-! ### the constructor's choice of mode, regenerated from `FilteredConfigParser.__init__` -/
+
+/-- **code tie**: for every combination of `exclude` / `include` (absent, empty, non-empty) the constructor either raises (both given and non-empty) or stores
+    exactly the species list and mode of the model's `modeCurrent` -/
+theorem C13_code_filter_init (excl incl : Option (List Sp)) :
+    Atsim.Gen.Logic.filter_init () excl incl =
+      (if (match excl with | some (_ :: _) => true | _ => false) && (match incl with | some (_ :: _) => true | _ => false)
+       then .error Atsim.Gen.Logic.FilterErr.bothGiven
+       else .ok ((modeCurrent excl incl).2, (modeCurrent excl incl).1)) := by
+  rcases excl with _ | _ | ⟨a, as⟩ <;> rcases incl with _ | _ | ⟨b, bs⟩ <;>
+    simp [Atsim.Gen.Logic.filter_init, modeCurrent]
+
 end Atsim.C13
